@@ -50,7 +50,7 @@ def gen_cases(tier, seed):
         insts = []
         for _ in range(20):
             k = rnd.randint(1, 9 if rnd.random() < 0.6 else 200)
-            pool = rnd.choice([[1, 4, 63, 64, 65, 128, 500, 512, 1000], [64, 128], [100], list(range(1, 3000, 7)), [0, 1, 64]])
+            pool = rnd.choice([[1, 4, 63, 64, 65, 128, 500, 512, 1000], [64, 128], [100], list(range(1, 3000, 7)), [0, 1, 64], [2**28, 2**28 + 64, 2**30, 2**31 - 64, 2**31, 2**33 + 1], [2**28]])  # incl. loads beyond 2^31 bytes
             insts.append([rnd.choice(pool) for _ in range(k)])
         cases.append({"id": f"rnd{i}", "family": "direct", "instances": insts, "groups": sorted(rnd.sample(range(1, 17), 4)), "shuffle_seed": [seed, "r", i]})
     nb = 16 if tier == "quick" else 160
